@@ -280,3 +280,89 @@ Proof. exact union_over_intersection_refuted. Qed.
 Print Assumptions C13_compositional_intersection.
 Print Assumptions C13_intersection_program_equivalence.
 Print Assumptions C13_intersection_nested_all_programs.
+
+(* ===== appended (round 3): SimpleUnion and the state read by score() / term_freq of PhraseScorer ===== *)
+From TV Require Import DocSet.SimpleUnion DocSet.Phrase.
+
+(* SimpleUnion (RegexPhraseQuery's union) over ANY children meeting the contract: build represents sem_union, and with
+   its doc / advance / seek and the trait defaults it meets the strong contract (it never dangles) *)
+Theorem C13_compositional_simple_union :
+  forall (C : impl) strong RC DC, contract C strong RC DC ->
+  (forall ds lcs, Forall2 RC ds lcs -> R_su C RC (su_build C ds) (sem_union lcs)) /\
+  contract (simple_union_impl C) true (R_su C RC) (fun s _ l => R_su C RC s l).
+Proof.
+  intros C strong RC DC CC. split; [exact (su_build_repr C strong RC DC CC)|exact (simple_union_contract C strong RC DC CC)].
+Qed.
+
+(* `impl Postings for SimpleUnion` (term_freq, positions) reads exactly the children whose doc() equals the union's doc:
+   in every state reached by build / advance / seek(t >= doc) a child CONTAINS the current document iff it is positioned
+   on it, so no contribution is missed *)
+Theorem C13_simple_union_children_aligned :
+  forall (C : impl) strong RC DC, contract C strong RC DC ->
+  (forall ds lcs, Forall2 RC ds lcs -> exists lcs', R_suw C RC (su_build C ds) lcs' /\ sem_union lcs' = sem_union lcs) /\
+  (forall s lcs, R_suw C RC s lcs -> exists lcs', R_suw C RC (su_advance C s) lcs' /\ sem_union lcs' = ds_advance (sem_union lcs)) /\
+  (forall s lcs t, R_suw C RC s lcs -> su_doc C s <= t -> t <= DOCSET_TERMINATED ->
+     exists lcs', R_suw C RC (su_seek C t s) lcs' /\ sem_union lcs' = ds_seek t (sem_union lcs)) /\
+  (forall s lcs, R_suw C RC s lcs -> su_doc C s < DOCSET_TERMINATED ->
+     Forall2 (fun c lc => In (su_doc C s) lc <-> doc C c = su_doc C s) (su_docsets C s) lcs).
+Proof.
+  intros C strong RC DC CC. split; [|split; [|split]].
+  - exact (su_build_aligned C strong RC DC CC).
+  - exact (su_advance_aligned C strong RC DC CC).
+  - exact (su_seek_aligned C strong RC DC CC).
+  - exact (su_aligned C strong RC DC CC).
+Qed.
+
+(* PhraseScorer = the terms' intersection (ANY implementation meeting the contract) filtered by phrase_match, where the
+   positions machinery is the oracle count_of: the constructor represents the matching documents, and advance / seek
+   (with the trait defaults for the rest) meet the contract *)
+Theorem C13_compositional_phrase :
+  forall (I : impl) strong RI DI, contract I strong RI DI -> forall (count_of : N -> N) (scoring : bool),
+  (forall i li, RI i li -> R_p I RI count_of scoring (p_new I count_of scoring i) (filter (matches count_of) li)) /\
+  contract (mk_seek_impl (p_doc I) (p_advance I count_of scoring) (p_seek I count_of scoring) (p_size I) (p_set_oof I) (p_ok I))
+           true (R_p I RI count_of scoring) (fun s _ l => R_p I RI count_of scoring s l).
+Proof.
+  intros I strong RI DI CI count_of scoring. split.
+  - exact (phrase_new_repr I strong RI DI CI count_of scoring).
+  - exact (phrase_contract_default_danger I strong RI DI CI count_of scoring).
+Qed.
+
+(* PhraseScorer::seek_danger from a valid state (the route of an enclosing Intersection): Found iff member, and then the
+   state is THE valid state on the target; otherwise a lower bound in (target, next member] *)
+Theorem C13_phrase_seek_danger :
+  forall (I : impl) strong RI DI, contract I strong RI DI -> forall (count_of : N -> N) (scoring : bool) s l t,
+  R_p I RI count_of scoring s l -> p_doc I s <= t -> t < DOCSET_TERMINATED ->
+  match p_seek_danger I count_of scoring t s with
+  | (SdFound, s') => In t l /\ R_p I RI count_of scoring s' (ds_seek t l)
+  | (SdLower b, s') => ~ In t l /\ t < b /\ b <= ds_doc (ds_seek t l)
+  end.
+Proof. intros I strong RI DI CI count_of scoring. exact (phrase_seek_danger_ok I strong RI DI CI count_of scoring). Qed.
+
+(* the score read at a document does not depend on how it was reached: in every valid state (reached by the constructor,
+   advance, seek or a seek_danger hit) the phrase count read by score() / term_freq is the phrase count of the current
+   document *)
+Theorem C13_phrase_count_path_independent :
+  forall (I : impl) (RI : st I -> list N -> Prop) (count_of : N -> N) s s' l, l <> [] ->
+  R_p I RI count_of true s l -> R_p I RI count_of true s' l ->
+  p_term_freq I s = p_term_freq I s' /\ p_term_freq I s = count_of (ds_doc l).
+Proof. intros I RI count_of s s' l Hl. exact (phrase_count_path_independent I RI count_of true s s' l eq_refl Hl). Qed.
+
+(* non-vacuity: a SimpleUnion of leaves and a scored phrase scorer over an intersection of leaves, on concrete programs *)
+Example C13_simple_union_nonvacuous :
+  run (simple_union_impl vec_impl) (su_build vec_impl [vec_of [3; 9; 4200]; vec_of []; vec_of [1; 9; 5000]]) [CAdvance; CSeek 9; CAdvance; CFill]
+  = spec_run (sem_union [[3; 9; 4200]; []; [1; 9; 5000]]) [CAdvance; CSeek 9; CAdvance; CFill].
+Proof. vm_compute. reflexivity. Qed.
+Example C13_phrase_nonvacuous :
+  let cnt := fun d => if N.eqb d 7 then 0 else d mod 3 in
+  let s0 := p_new vec_impl cnt true (vec_of [2; 3; 4; 7; 8; 11]) in
+  p_doc vec_impl s0 = 2 /\ p_term_freq vec_impl s0 = 2 /\
+  (let '(r, s1) := p_seek_danger vec_impl cnt true 8 s0 in r = SdFound /\ p_term_freq vec_impl s1 = 2) /\
+  p_term_freq vec_impl (p_seek vec_impl cnt true 8 s0) = 2 /\
+  fst (p_seek_danger vec_impl cnt true 7 s0) = SdLower 8.
+Proof. vm_compute. repeat split; reflexivity. Qed.
+
+Print Assumptions C13_compositional_simple_union.
+Print Assumptions C13_simple_union_children_aligned.
+Print Assumptions C13_compositional_phrase.
+Print Assumptions C13_phrase_seek_danger.
+Print Assumptions C13_phrase_count_path_independent.
